@@ -1,4 +1,4 @@
-"""C10 (scalar part) — MTBDD terminal arithmetic: I64 saturating extended-integer arithmetic, F64 IEEE-754 with NaN / signed zero normalised."""
+"""C10 — MTBDD arithmetic is the pointwise lifting of exact terminal arithmetic: scalar level (I64 over Z with saturation, F64 via Flocq) and function level (Gallina model of terminal_bin / apply_bin / apply_ite / restrict / constant / var / eval)."""
 import json
 import os
 import random
@@ -8,12 +8,12 @@ import ddgen
 from checks import ddcommon
 
 META = {
-    "title": "MTBDD terminal arithmetic (I64, F64): exact/saturating integer results, IEEE-754 floats with NaN and -0 normalised, short-cut laws of terminal_bin",
-    "technique": "Rocq proofs over hand-written Gallina models of terminal/i64.rs (over Z) and terminal/f64.rs (Flocq binary64 + the normalisation of F64::from); models tied to /repo by a differential run: the extracted OCaml models, an independent exact-arithmetic predicate (Zarith) and the real I64/F64 types evaluate the same boundary-set and random operand pairs",
+    "title": "MTBDD add/sub/mul/div/min/max/ite/restrict/constant/var/eval are the pointwise lifting of the terminal arithmetic (function-level model with every terminal_bin short-cut, cache keys, hash-consed terminals), and the terminal arithmetic (I64, F64) is exact/saturating resp. IEEE-754 with NaN and -0 normalised",
+    "technique": "Rocq proofs over hand-written Gallina models. Scalar level: terminal/i64.rs over Z, terminal/f64.rs as Flocq binary64 + the normalisation of F64::from. Function level: coq/DD/ApplyMtbdd.v mirrors oxidd-rules-mtbdd/src/lib.rs (terminal_bin arm by arm, MTBDDOp codes) and apply_rec.rs (apply_bin, apply_ite, restrict with its tail-recursive inner walk, constant/var/eval) on the node-table state of DD/Table.v with hash-consed terminal values and an abstract apply cache; soundness is proved by fuel induction from the scalar laws. Models tied to /repo by differential runs: scalar operations on boundary-set and random operand pairs; the extracted function-level model replayed on snapshots of real MTBDD<I64> managers with the real operand edges (same value table; same edge where the result exists); MTBDD<F64> results compared pointwise with the extracted F64 model",
     "category": "proof",
-    "design_ref": "DESIGN.md section 5, C10 (scalar level)",
-    "level_text": "Theorems in coq/Props/C10.v (checked by coqc on every run, Print Assumptions audited). I64: add/sub/mul/div of in-range operands equal the exact extended-integer result saturated to 64 bits (clamp (ext_op a b)); div truncates toward zero, x/0 = +-inf by the sign of x, MIN/-1 = +inf, undefined forms give NaN; results stay in range; partial_cmp is the order of the extended integers with NaN comparable only to itself (reflexive, antisymmetric, transitive). F64: the operations are Flocq's binary64 operations (round to nearest even) followed by the normalisation, the normalisation is idempotent, all results are normalised, finite non-overflowing results are the correctly rounded exact results (from Flocq's Bplus_correct etc.). For both types every short-cut arm of terminal_bin is either proved as a law on the values that can occur (0+x, x+0, x-0, 1*x, x*1, x/1, NaN absorbing for all six operators, add/mul/min/max commutative, min/max idempotent) or refuted by a theorem with a computed witness: the Sub arm `(Terminal(zero), _) => g` (0 - 3 <> 3) and the Max arms that build `Binary(MTBDDOp::Min, ..)` (max 1 2 <> min 1 2). On every run the extracted models and the real I64/F64 evaluate add/sub/mul/div/partial_cmp/==/is_zero/is_one/is_nan on all pairs of a boundary set and on random pairs; I64 results are also compared with exact Zarith arithmetic + saturation computed in the driver.",
-    "level_note": "Scalar (terminal) level only; the diagram-level lifting of C10 (apply, ite, restrict, constant, var) is a separate package that takes the laws proved here as hypotheses — the two refuted short-cut arms are defects of oxidd-rules-mtbdd/src/lib.rs that must be handled there. F64: the identification of the hardware FPU with Flocq's binary64 is by correspondence on bit patterns, not proved; transitivity of the F64 order is not proved separately (on finite values the order is shown to be the order of the denoted reals). Axioms reported by Print Assumptions for the F64 theorems (Flocq / Coq Reals, allow-listed by name): ClassicalDedekindReals.sig_forall_dec, ClassicalDedekindReals.sig_not_dec, FunctionalExtensionality.functional_extensionality_dep, Classical_Prop.classic. The I64 theorems are closed under the global context. Trusted: Coq kernel, extraction (ExtrOcamlBasic), OCaml driver (incl. its Zarith re-statement of the property), Rust harness; models are hand-written.",
+    "design_ref": "DESIGN.md section 5, C10; notes/C10b.md",
+    "level_text": "Theorems in coq/Props/C10.v (checked by coqc on every run, Print Assumptions audited; the C10_i64_* and C10_mt_* theorems must be closed under the global context). FUNCTION LEVEL (C10_mt_*, integer terminals): for every table satisfying MtOK (well-formed MTBDD table whose terminal values are in the i64 range; decided by the extracted checker mt_ok_b), every apply cache of ANY implementation that only serves what was added (lossy) whose servable entries are correct (MCacheOK), every operand order used for the commutative normalisation and fuel > number of levels: mt_apply_bin op returns (never fails) a reference denoting fun a => i64_op (f a) (g a) for add/sub/mul/div/min/max (C10_mt_apply_bin_lifts, _pointwise in terms of the interpreter semk only, _assignments in terms of variable assignments), mt_apply_ite returns fun a => if f a = 0 then h a else g a (then-operand where the condition is 1), mt_restrict returns the operand's function with the levels of the cube's literals forced (Cube = chain of (x, rest, 0) / (x, 0, rest) nodes ending in 1, proved to denote the product of the literals and recognised by the extracted checker cube_lits); constant and var return the obvious functions; eval computes the interpreter. In every case the table is only extended (nodes and terminals), MtOK and MCacheOK are preserved, and if the result function already has a reference this very reference is returned and nothing is created - hence cache transparency and history independence (C10_mt_cache_transparent, C10_mt_*_history_independent, C10_mt_result_unique), also for the direct-mapped cache model (C10_mt_cache_instances). C10_mt_terminal_bin_sound discharges every arm of terminal_bin from a scalar law (0+x, x+0, x-0, 1*x, x*1, x/1, NaN absorbing, min/max of terminals by partial_cmp, f == g for min/max, operand swap only for add/mul/min/max); the cache-key obligation is part of MCacheOK (key (operator code, a, b) determines the pointwise meaning of the value). The two short-cuts fixed earlier in /repo are refuted at diagram level (C10_mt_sub_zero_shortcut_unsound: returning g for 0 - g; C10_mt_max_under_min_key_unsound: a max result is not a correct entry under the Min key). Hypotheses are satisfiable (C10_mt_hypotheses_satisfiable: a table built by the model itself). SCALAR LEVEL: I64 add/sub/mul/div of in-range operands equal the exact extended-integer result saturated to 64 bits (clamp (ext_op a b)); div truncates toward zero, x/0 = +-inf by the sign of x, MIN/-1 = +inf, undefined forms give NaN; results stay in range; partial_cmp is the order of the extended integers with NaN comparable only to itself. F64: the operations are Flocq's binary64 operations (round to nearest even) followed by the normalisation, which is idempotent; all results are normalised; finite non-overflowing results are the correctly rounded exact results; the short-cut laws hold on normalised values. On every run: scalar differential sweep (extracted models, independent Zarith predicate, real I64/F64); real MTBDD<I64> managers vs. pointwise spec (extracted scalar model) AND vs. the extracted function-level model replayed on the lifted snapshots before and after every operation; real MTBDD<F64> managers vs. the extracted F64 model applied pointwise, with wf_b/canonicity audits on normalised terminal values.",
+    "level_note": "Function-level theorems are for the I64 instance of the model; the MTBDD<F64> function level is covered by the correspondence run only (pointwise extracted F64 scalar model + structure audits), not by a function-level proof (the model's proof uses only the scalar laws, which are also proved for F64 on normalised values, but the instantiation is not carried out). Not modelled: out-of-memory results (AllocResult), reference counts/gc (C05), the multi-threaded recursion (oxidd-rules-mtbdd has none), the debug_assert in apply_ite that a terminal condition is 0 or 1 (the model is the release behaviour: every non-zero condition selects the then-operand; the ite theorem is stated for arbitrary conditions and specialised to 0-1-valued ones), the unobservable edge order f > g (a parameter of the model; theorems hold for every order). The apply cache is abstract (lossy); the direct-mapped cache of DD/Cache.v is an instance. F64 scalar level: the identification of the hardware FPU with Flocq's binary64 is by correspondence on bit patterns, not proved; transitivity of the F64 order is not proved separately. Axioms reported by Print Assumptions for the F64 theorems only (Flocq / Coq Reals, allow-listed by name): ClassicalDedekindReals.sig_forall_dec, ClassicalDedekindReals.sig_not_dec, FunctionalExtensionality.functional_extensionality_dep, Classical_Prop.classic; every C10_i64_* and C10_mt_* theorem is closed under the global context (enforced by this check). Trusted: Coq kernel, extraction (ExtrOcamlBasic), OCaml drivers (c10_main.ml incl. its Zarith re-statement of the property, c10b_main.ml, dd_main.ml), Rust harnesses, the public snapshot API; models are hand-written.",
 }
 
 ALLOWED_AXIOMS = (
@@ -133,6 +133,16 @@ def audit_axioms(ctx):
             if m:
                 names.add(m.group(1))
     ctx.axioms_seen = sorted(set(ctx.axioms_seen) | names)
+    # the integer-terminal theorems (scalar and function level) must not depend on any axiom at all
+    try:
+        pa = vf.parse_print_assumptions(open(p).read())
+        for name, ax in zip(ctx.theorems, pa):
+            if (name.startswith("C10_mt_") or name.startswith("C10_i64_")) and ax:
+                vf.report_violation(
+                    ctx, f"proof:C10:{name} is not closed under the global context: {ax}",
+                    {"stage": "proof", "theorem_file": "coq/Props/C10.v", "what": f"{name} depends on {ax}"}, nfif=True)
+    except OSError:
+        pass
     extra = [a for a in ctx.axioms_seen if a not in ALLOWED_AXIOMS]
     if extra:
         vf.report_violation(
